@@ -104,6 +104,10 @@ func (c *cache) flushScheduler() {
 						return
 					}
 					b = sortedAddrs[i:i]
+					if handledAddr {
+						// addr has just been sent, the next batch starts after it
+						b = sortedAddrs[i+1 : i+1]
+					}
 					bs = 0
 				}
 				if handledAddr {
